@@ -330,6 +330,12 @@ func (c *Ctx) plyMesh(vc plyValueClass) plyGenMesh {
 		}
 		for k := 0; k < nUser; k++ {
 			name := c.plyUserName()
+			if c.Rng.Intn(25) == 0 {
+				// names the writer must reject (not a single word / duplicate of a written property) or that coincide
+				// with a recognised property name
+				name = []string{"my attr", "x", "red", "nx", " lead", "opacity", "s"}[c.Rng.Intn(7)]
+				c.Note("user-name:special")
+			}
 			d := c.plyV1s(nv, vc, false)
 			g.userV1 = append(g.userV1, name)
 			sets = append(sets, func(m modeling.Mesh) modeling.Mesh { return m.SetFloat1Attribute(name, d) })
@@ -678,31 +684,45 @@ func runC04(c *Ctx) {
 			c.plyCaseEP(g, c.plyCfg(g), plyFormats, "c04.holds.encodings_agree", false)
 		}
 	}
-	// candidate findings on the unchanged tree, one fixed witness each under its own op name (expected false until the
-	// coordinator decides fix / known finding / outside the quantifier):
 	{
 		pos := []vector3.Float64{vector3.New(1., 2., 3.), vector3.New(4., 5., 6.), vector3.New(7., 8., 9.)}
-		wit := func(op string, m modeling.Mesh) {
-			w := plyWCfg{isDefault: true}
+		w := plyWCfg{isDefault: true}
+		// KNOWN FINDING (a): a point cloud whose index buffer is not 0..n-1 — PLY stores no indices for point clouds, 3
+		// primitives come back for 2 (theorem guard `hpoint`)
+		{
+			m := modeling.NewMesh(modeling.PointTopology, []int{2, 0}).SetFloat3Attribute(modeling.PositionAttribute, pos)
 			for _, f := range []ply.Format{ply.ASCII, ply.BinaryLittleEndian} {
 				data, err := w.write(m, f)
 				c.Emit("c04.write", w.tok(f)+" "+plyMeshTok(m), plyResBytes(data, err))
 				rs, _ := plyImplReadMesh(data)
 				c.Emit("c04.read", plyHx(data), rs)
-				c.Emit(op, w.tok(f)+" "+plyMeshTok(m)+" "+rs, "true")
+				c.Emit("c04.holds.pointcloud_index_buffer_witness", w.tok(f)+" "+plyMeshTok(m)+" "+rs, "true")
 			}
 		}
-		// (a) a point cloud whose index buffer is not 0..n-1: PLY stores no indices for point clouds → 3 primitives come back for 2
-		wit("c04.holds.pointcloud_index_buffer_witness",
-			modeling.NewMesh(modeling.PointTopology, []int{2, 0}).SetFloat3Attribute(modeling.PositionAttribute, pos))
-		// (b) a user attribute whose name holds a blank: `property float my attr` — the reader rejects the file the writer wrote
-		wit("c04.holds.name_with_blank_witness",
+		// fixed by 858df3c, kept as corpus cases: a property name that is not a single word, or used twice, makes Write
+		// fail before anything is written (no unreadable / silently corrupted file is produced)
+		bad := []modeling.Mesh{
 			modeling.NewMesh(modeling.PointTopology, []int{0, 1, 2}).SetFloat3Attribute(modeling.PositionAttribute, pos).
-				SetFloat1Attribute("my attr", []float64{10, 20, 30}))
-		// (c) a user scalar named like a recognised property: two `property float x` lines; Position.x silently becomes the scalar
-		wit("c04.holds.name_collision_witness",
+				SetFloat1Attribute("my attr", []float64{10, 20, 30}),
 			modeling.NewMesh(modeling.PointTopology, []int{0, 1, 2}).SetFloat3Attribute(modeling.PositionAttribute, pos).
-				SetFloat1Attribute("x", []float64{10, 20, 30}))
+				SetFloat1Attribute("x", []float64{10, 20, 30}),
+			modeling.NewMesh(modeling.PointTopology, []int{0, 1, 2}).SetFloat3Attribute(modeling.PositionAttribute, pos).
+				SetFloat1Attribute("", []float64{10, 20, 30}),
+			modeling.NewMesh(modeling.PointTopology, []int{0, 1, 2}).SetFloat3Attribute(modeling.PositionAttribute, pos).
+				SetFloat1Attribute("tab\tbed", []float64{10, 20, 30}),
+		}
+		for _, m := range bad {
+			for _, f := range plyFormats {
+				var n int
+				ans := Guard(func() string {
+					data, err := w.write(m, f)
+					n = len(data)
+					return plyResBytes(data, err)
+				})
+				c.Emit("c04.write", w.tok(f)+" "+plyMeshTok(m), ans)
+				c.Emit("c04.holds.bad_name_write_rejected", fmt.Sprintf("%s %d", strings.Fields(ans)[0], n), "true")
+			}
+		}
 	}
 	for k := 0; k < c.N; k++ {
 		g := c.plyMesh(plyVcNice)
